@@ -399,7 +399,7 @@ PROPS = {
     'C11': dict(profiles=['valid', 'hostile', 'faults'], n=(3000, 90000), large=['large', 'steered']),
     'C12': dict(profiles=['valid', 'hostile', 'faults'], n=(3000, 90000), large=['large', 'steered']),
     'C13': dict(profiles=['valid', 'hostile', 'faults'], n=(2000, 80000), large=['large', 'steered']),
-    'C15': dict(profiles=['valid', 'hostile', 'faults'], n=(1500, 60000)),
+    'C15': dict(profiles=['valid', 'hostile', 'faults'], n=(1500, 60000), large=['steered']),
     'C17': dict(profiles=['valid', 'hostile'], n=(1500, 60000), large=['large']),
     'C18': dict(profiles=['hostile', 'faults'], n=(3000, 100000), large=['large', 'steered', 'steered_faults']),
     'C20': dict(profiles=['valid', 'hostile', 'faults'], n=(1500, 60000), large=['large']),
